@@ -580,8 +580,9 @@ def model(ctx, cases, outs):
     res = ctx.run_model("entry_recon", args)
     # premise of C04_model_safe_partial, discharged per instance: the set-up state satisfies Inv
     inv = ctx.run_model("entry_prep_check", args)
-    # premise of C04_loop_total_partial (order invariant Ord on the set-up state), quadratic: small cases only
-    small = [k for k, c in enumerate(cases) if not c.get("bad") and _padded_cells(c) <= 200]
+    # C04_setup_ord is a theorem now; the (quadratic) boolean Ord check is kept on a sub-sample as a cross-check
+    # of the extracted set-up against the statement of the theorem
+    small = [k for k, c in enumerate(cases) if not c.get("bad") and _padded_cells(c) <= 200][:ctx.n(150, 600)]
     ordr = dict(zip(small, ctx.run_model("entry_ord_check", [args[k] for k in small])))
     ctx.count("ord_check evaluated", len(small))
     return [{"m": r, "inv": i, "ord": ordr.get(k)} for k, (r, i) in enumerate(zip(res, inv))]
@@ -590,11 +591,11 @@ def model(ctx, cases, outs):
 def compare(case, out, m):
     ordv, inv, m = m.get("ord"), m["inv"], m["m"]
     if ordv is not None and ordv != 1:
-        return "Spec.ReconInv.ord_check is false on the set-up state of a valid input (premise of C04_loop_total_partial)"
+        return "Spec.ReconInv.ord_check is false on the set-up state of a valid input (contradicts C04_setup_ord)"
     if isinstance(m, dict) or isinstance(inv, dict):
         return "model error: %s %s" % (m, inv)
     if not case.get("bad") and inv != 1:
-        return "Spec.ReconInv.prep_check is false on the set-up state of a valid input (premise of C04_model_safe_partial)"
+        return "Spec.ReconInv.prep_check is false on the set-up state of a valid input (contradicts C04_setup_inv)"
     if case.get("bad"):
         rej_i = isinstance(out, dict) and out.get("exc") in ("AssertionError", "ValueError")
         rej_m = (m == [3])
@@ -792,20 +793,20 @@ def shrink_candidates(case):
 
 MANIFEST = {
     "level_text": (
-        "Machine-checked proof (Coq 8.16): the declarative specification of reconstruction by dilation (least image "
-        "between seed and mask that the dilate-and-clip step leaves unchanged, for any footprint incl. asymmetric) with "
-        "uniqueness, idempotence and the equivalence closed = step-fixed; soundness of the extracted certificate checker "
-        "recon_check and of the executable iterate-until-stable definition, both of which are evaluated on the "
-        "implementation's own output for every generated case; and a line-level executable Gallina model of "
-        "grey_reconstruction (padding, strides, lexsort, linked list, rank_order) and of grey_reconstruction_loop "
-        "(exact unlink/relink, checked array accesses) tied to the code by exact equality of complete outputs; for that "
-        "loop model, index safety and 'link has a successor' (no array access outside [0,2S), no node ever dropped) "
-        "are proved for every state satisfying a verified, per-instance-checked invariant."),
+        "Machine-checked proof (Coq 8.16), no per-instance premise: for every accepted input (seed <= mask, footprint "
+        "with odd dimensions >= 3, any footprint incl. asymmetric) the line-level executable Gallina model of "
+        "grey_reconstruction (padding, strides, lexsort, linked list, rank_order) and of grey_reconstruction_loop (exact "
+        "unlink/relink, checked array accesses) terminates within its fuel, never accesses out of bounds, never drops a "
+        "node, and returns THE reconstruction by dilation (between seed and mask, unchanged by dilate-and-clip, pointwise "
+        "least) - C04_grey_reconstruction_model_correct; with uniqueness, idempotence, closed = step-fixed, soundness of "
+        "the extracted certificate checker recon_check and of iterate-until-stable. The model is tied to the code by exact "
+        "equality of complete outputs on every generated case (all dtypes, layouts, footprint types, offsets); the "
+        "verified checker and the iterated definition are also evaluated on the implementation's own output."),
     "level_note": (
         "Trusted: Coq kernel + vm_compute; extraction (ExtrOcamlBasic only) and the S-expression driver; the Python "
-        "harness incl. the order-preserving integer coding of the inputs (all dtypes); NumPy sort semantics as modelled. The tie "
-        "between model and code is differential, not a proof about Python/C. That the loop computes the reconstruction "
-        "for every input is established per instance by the verified checker, not by a general loop proof."),
+        "harness incl. the order-preserving integer coding of the inputs (all dtypes); NumPy sort semantics as modelled. "
+        "The tie between model and code is differential, not a proof about Python/C: the theorem is about the model, the "
+        "implementation is shown equal to the model on the generated cases."),
     "technique": "Coq proof over spec + verified certificate checker on implementation output + exact differential "
                  "correspondence with a line-level executable model (extracted OCaml and vm_compute)",
     "design_ref": "DESIGN.md section 7, C04",
